@@ -30,7 +30,8 @@ def s_plan(tier):
           (PG.memory_leak_respawn(1, "ok", "await"), 1, PT),
           (PG.memory_leak_respawn(1, "ok", "nowait"), 1, PT),
           (with_init(PG.basic(2, None), "fail"), 1, PT),
-          (with_init(PG.reusable_replace(None, False)), 0, PT)]
+          (with_init(PG.reusable_replace(None, False)), 0, PT),
+          (PG.late_initializer_failure(3), 1, PT), (PG.late_initializer_failure(4), 0, PT)]
     if tier == "thorough":
         pl += [(with_init(PG.warm_then(1, 0.05, "nowait")), 2, dict(kinds=("T",))),
                (with_init(PG.bursts(2, 0.05)), 1, PT)]
